@@ -491,8 +491,55 @@ def check(ctx):
                           bad_detail="discard returns Ok on a path that has not reached size() <= size0 - n: [%s]" % cond_str(p)[:200])
         ctx.check(n_loop == 1, "R04.4", "discard/loop-body-found", "%d loop body path(s)" % n_loop, f.at())
 
+    def discard_try_for_each(ctx):
+        """the same clauses for `if n > size { Err(Underflow{n,size}) } else { (0..n).try_for_each(|_| self.pop().map(|_| ())) }`:
+        Range::try_for_each calls the closure once per index 0..n and stops at the first Err; the closure removes exactly one element per call"""
+        from . import ckit as K
+        f = ctx.fn(S + "discard")
+        paths = K.live(ctx.cpaths(f))
+        n_loop = 0
+        for p in paths:
+            tfe = K.calls_of(p, "Iterator::try_for_each")
+            pops = [c for c in p.calls() if callee_is(c, "Stack::pop", "Vec::pop", "Vec::truncate", "Vec::drain", "Vec::clear", "Vec::remove")]
+            rels = [r for r in (full_relation(c[0], K.truth_of(c[1]), lambda e: e == ("param", 2), is_size) for c in p.conds) if r]
+            kind, pay = K.outcome(p)
+            if tfe:
+                okt = len(tfe) == 1 and not pops and match(tfe[0][3][0], Through(Agg("Range::Range", Const(0), Param(2)))) and tfe[0][3][1][0] == "agg" and tfe[0][3][1][1] == "closure"
+                ctx.check("a<=b" in rels and okt, "R04.3", "discard/n<=size-dominates-removal", cond_str(p)[:140], f.at(),
+                          bad_detail="discard removes on a path that has not established n <= size, or not by one pass over 0..n: [%s] %s" % (cond_str(p)[:200], short(tfe[0], 4)))
+                # what discard returns is the try_for_each result itself (Ok(()) after n removals, the first pop error otherwise)
+                r = K.strip(p.ret, calls=()) if p.ret is not None else None
+                through_q = kind in ("ok", "err") and (K.discr_is(p, lambda o: o == tfe[0], 0) and kind == "ok" or K.discr_is(p, lambda o: o == tfe[0], 1) and kind == "err" and K.conv_free(pay) == ("field", tfe[0], 0, "Err"))
+                ctx.check(r == tfe[0] or through_q, "R04.3", "discard/pop-error-propagated", short(p.ret, 4), f.at())
+                if not okt:
+                    continue
+                cps = [q for q in (closure_paths(ctx, tfe[0][3][1], canon=True) or []) if q.end != "unreachable"]
+                good = len(cps) == 2
+                for q in cps:
+                    qp = [c for c in q.calls() if callee_is(c, "Stack::pop", "Vec::pop")]
+                    other = [c for c in q.calls() if callee_is(c, "Vec::truncate", "Vec::drain", "Vec::clear", "Vec::remove", "Stack::discard", "Stack::pop2", "Stack::pop3", "Stack::push", "Vec::push")]
+                    good = good and len(qp) == 1 and not other and q.end == "return" and peel(qp[0][3][0], ()) == ("param", 1)
+                    k2, pay2 = K.outcome(q)
+                    if K.discr_is(q, lambda o: o == qp[0], 0) if qp else False:
+                        good = good and k2 == "ok"
+                    elif K.discr_is(q, lambda o: o == qp[0], 1) if qp else False:
+                        good = good and k2 == "err" and K.conv_free(pay2) == ("field", qp[0], 0, "Err")
+                    else:
+                        good = False
+                n_loop += 1
+                ctx.check(good, "R04.4", "discard/one-pop-per-iteration-of-0..n", "closure: one pop per index, Ok(()) / the pop error", f.at(),
+                          bad_detail="the per-index closure must pop exactly one element and return Ok(()) or that pop's error: " + "; ".join("[%s] -> %s" % (cond_str(q)[:80], short(q.ret, 4)) for q in cps))
+            elif pops:
+                ctx.bad("R04.3", "discard/n<=size-dominates-removal", "removal outside the 0..n pass: " + ", ".join(short(c, 3) for c in pops), f.at())
+            elif kind == "err":
+                u = underflow_err(p)
+                ctx.check("a>b" in rels and u is not None and u[3][0] == ("param", 2) and is_size(u[3][1]), "R04.3", "discard/too-few->Underflow{n,size}-without-removal", short(p.ret, 4), f.at())
+            elif kind == "ok":
+                ctx.bad("R04.4", "discard/stops-at-target", "discard returns Ok without the 0..n pass: [%s]" % cond_str(p)[:200], f.at())
+        ctx.check(n_loop == 1, "R04.4", "discard/loop-body-found", "%d try_for_each pass(es)" % n_loop, f.at())
+
     from . import ckit as _K
-    _K.either(ctx, discard_counted_loop, discard_shrink_to_target, note="spelled as shrink-to-target loop")
+    _K.either(ctx, discard_counted_loop, lambda c: _K.either(c, discard_shrink_to_target, discard_try_for_each, note="spelled as (0..n).try_for_each"), note="spelled as shrink-to-target loop")
     for name in ("top", "top2", "top3", "size", "is_empty", "is_full", "max_stack_size"):
         f = ctx.fn(S + name)
         ctx.check(f.locals[1]["ty"].get("k") == "ref", "R04.3", name + "/takes-&self", f.locals[1]["ty"]["s"], f.at())
